@@ -214,6 +214,13 @@ def case_strategy(draw, tier):
         argv = list(prog.argv) + draw(options.codegen_options(indirect=True))
         choices = [list(bytes(draw(st.lists(st.sampled_from(list(b"abxcdqef")), min_size=2, max_size=6)))) for _ in range(4)]
         return prog, argv, [bytes(c) for c in choices]
+    if draw(st.integers(0, 9)) == 0:
+        # programs that really use `end` (statement, clause, handler, optional at the tail): end() is part of the emitted code too
+        from checks.c17 import eof_program
+        prog, argv = draw(eof_program(with_appendc=True))
+        argv = argv + draw(options.codegen_options(indirect=None))
+        choices = draw(st.lists(st.lists(st.integers(0, 4095), min_size=0, max_size=10), min_size=4, max_size=8))
+        return prog, argv, choices
     if draw(st.integers(0, 7)) == 0:
         prog, datas = draw(gen.break_loop_program())
         argv = list(prog.argv) + draw(options.codegen_options(indirect=None))
